@@ -10,6 +10,7 @@ import (
 	"encoding/json"
 	"fmt"
 	"hash/fnv"
+	"math"
 	"math/rand"
 	"os"
 	"path/filepath"
@@ -60,6 +61,12 @@ func enc(spec runSpec, i int) any {
 			return (*inode)(nil)
 		}
 		return inodes[i]
+	case 4:
+		// floats; item NilItem is NaN, which is not equal to itself: every Add of it adds a new item
+		if i == spec.NilItem {
+			return math.NaN()
+		}
+		return float64(i)
 	}
 	return i
 }
@@ -74,6 +81,11 @@ func dec(spec runSpec, item any) (int, bool) {
 		var i int
 		_, err := fmt.Sscanf(v, "item-%d", &i)
 		return i, err == nil && spec.Items == 2
+	case float64:
+		if v != v {
+			return spec.NilItem, spec.Items == 4
+		}
+		return int(v), spec.Items == 4 && int(v) != spec.NilItem
 	case *inode:
 		if v == nil {
 			return spec.NilItem, spec.Items == 3
@@ -102,6 +114,10 @@ type batchOut struct {
 }
 
 func children(spec runSpec, i int) []int {
+	if spec.Items == 4 && i == spec.NilItem {
+		// NaN is a new item at every Add: it adds nothing itself, or a cycle through it would never end
+		return nil
+	}
 	h := fnv.New64a()
 	fmt.Fprintf(h, "%d/%d", spec.Seed, i)
 	x := h.Sum64()
@@ -221,7 +237,11 @@ func oneRun(spec runSpec, out *batchOut) {
 	rvAll := make(chan struct{})
 	omu := &outMu
 	var w par.Work
+	var nanAdds int64
 	for _, r := range spec.Roots {
+		if spec.Items == 4 && r == spec.NilItem {
+			atomic.AddInt64(&nanAdds, 1)
+		}
 		w.Add(enc(spec, r))
 	}
 	viol := func(kind, detail string) {
@@ -252,7 +272,14 @@ func oneRun(spec runSpec, out *batchOut) {
 			}
 		}
 		if c := atomic.AddInt32(&counts[i], 1); c > 1 {
-			viol("called-twice", fmt.Sprintf("f(%d) called %d times", i, c))
+			if spec.Items == 4 && i == spec.NilItem {
+				// NaN: one call per Add of it, never more
+				if int64(c) > atomic.LoadInt64(&nanAdds) {
+					viol("called-more-often-than-added", fmt.Sprintf("f(NaN) called %d times, the item was added %d times", c, atomic.LoadInt64(&nanAdds)))
+				}
+			} else {
+				viol("called-twice", fmt.Sprintf("f(%d) called %d times", i, c))
+			}
 		}
 		omu.Lock()
 		order = append(order, int32(i))
@@ -268,6 +295,9 @@ func oneRun(spec runSpec, out *batchOut) {
 		for k, c := range children(spec, i) {
 			if atomic.LoadInt64(&inflight) < int64(spec.N) {
 				atomic.AddInt64(&idleAdds, 1)
+			}
+			if spec.Items == 4 && c == spec.NilItem {
+				atomic.AddInt64(&nanAdds, 1)
 			}
 			w.Add(enc(spec, c))
 			if k%2 == 0 && (spec.Shape != 5 || x%5 == 0) {
@@ -344,7 +374,7 @@ func genSpec(rng *rand.Rand) runSpec {
 		s.N = []int{255, 256, 257, 300, 1000}[rng.Intn(5)] // far more runners than items: they must all go home
 	}
 	if rng.Intn(3) == 0 {
-		s.Items = 1 + rng.Intn(3)
+		s.Items = 1 + rng.Intn(4)
 		s.NilItem = rng.Intn(s.M)
 	}
 	nr := 1 + rng.Intn(4)
@@ -369,6 +399,9 @@ func genSpec(rng *rand.Rand) runSpec {
 			s.Shape = 0
 		}
 		return s
+	}
+	if s.Shape == 5 && s.Items == 4 {
+		s.Items = 0 // the rendezvous counts calls: no item that is called once per Add
 	}
 	if s.Shape == 5 {
 		s.Roots = []int{0}
@@ -428,7 +461,7 @@ func main() {
 		return
 	}
 	vlib.Main("C09", "exploration", 15*time.Minute, func(r *vlib.Run) {
-		r.Rule("runs of Work.Do over deterministic item graphs (1-200 items; shapes: random fan-out with duplicates/self/back edges, chain, wide fan with back-edges, binary tree with duplicate adds, bursts, popular item: 258-700 items all adding the same one, so that it is added hundreds of times; rendezvous fan: one call adds min(n,items)-1 items back to back and all these calls wait for each other, so a lost wake-up is a deadlock), 0-5 roots added before Do (with duplicates; one run in 25 adds nothing at all), n in {1,2,3,4,8,64} (one run in 40: 255, 256, 257, 300 or 1000); items are ints, in a third of the runs strings, pointers (one of them a typed nil) or ints with one item being the nil interface value; f perturbs itself (Gosched / spin / sleep) at entry, between Adds and at exit; each batch runs in a child process, once in a non-race build (the runtime's deadlock detector is the termination oracle) and once in a race build (watchdog + goroutine-dump classification), GOMAXPROCS in {1,2,4,16}. Distinct non-trivial = distinct item start-order signatures observed.")
+		r.Rule("runs of Work.Do over deterministic item graphs (1-200 items; shapes: random fan-out with duplicates/self/back edges, chain, wide fan with back-edges, binary tree with duplicate adds, bursts, popular item: 258-700 items all adding the same one, so that it is added hundreds of times; rendezvous fan: one call adds min(n,items)-1 items back to back and all these calls wait for each other, so a lost wake-up is a deadlock), 0-5 roots added before Do (with duplicates; one run in 25 adds nothing at all), n in {1,2,3,4,8,64} (one run in 40: 255, 256, 257, 300 or 1000); items are ints, in a third of the runs strings, pointers (one of them a typed nil), ints with one item being the nil interface value, or floats with one item being NaN (not equal to itself: one call per Add of it); f perturbs itself (Gosched / spin / sleep) at entry, between Adds and at exit; each batch runs in a child process, once in a non-race build (the runtime's deadlock detector is the termination oracle) and once in a race build (watchdog + goroutine-dump classification), GOMAXPROCS in {1,2,4,16}. Distinct non-trivial = distinct item start-order signatures observed.")
 		r.Assume("interleavings are sampled, not enumerated (the statement's quantifier asks for a controlled scheduler, which is a different technique): a bug that needs one specific rare order can be missed")
 		base := vlib.Scratch()
 		build := os.Getenv("VERIF_BUILD")
